@@ -202,6 +202,7 @@ func c02Gen(c *Ctx) {
 	decoderUsesNumber(c)
 	layoutAgreement(c)
 	genRound2(c)
+	numericCaseSets(c)
 	// an invalid document must not be executed from the cache on its second arrival (C03)
 	c03Cache(c)
 }
